@@ -12,6 +12,8 @@ pub mod c09;
 pub mod c10;
 pub mod c11;
 pub mod c12;
+pub mod c13;
+pub mod c14;
 pub mod c16;
 pub mod c17;
 pub mod c19;
@@ -33,6 +35,8 @@ pub fn run(ctx: &mut Ctx) {
         "C10" => c10::run(ctx),
         "C11" => c11::run(ctx),
         "C12" => c12::run(ctx),
+        "C13" => c13::run(ctx),
+        "C14" => c14::run(ctx),
         "C16" => c16::run(ctx),
         "C17" => c17::run(ctx),
         "C19" => c19::run(ctx),
@@ -56,6 +60,8 @@ pub fn replay(ctx: &mut Ctx, stage: &str, case: &Value) -> Result<(), String> {
         "C10" => c10::replay(ctx, stage, case),
         "C11" => c11::replay(ctx, stage, case),
         "C12" => c12::replay(ctx, stage, case),
+        "C13" => c13::replay(ctx, stage, case),
+        "C14" => c14::replay(ctx, stage, case),
         "C16" => c16::replay(ctx, stage, case),
         "C17" => c17::replay(ctx, stage, case),
         "C19" => c19::replay(ctx, stage, case),
